@@ -19,6 +19,10 @@ def _cong(a, b, p):
 
 
 def oracle(prog, vec, mode, n, p, o, extra):
+    for op, ak, idx, v0, v1 in (getattr(o, "mutated", None) or [])[:1]:
+        yield ({"op": op, "kinds": ak, "klass": "operand-changed-by-call"},
+               "%s on %s (bitlength %d): %s changed its operand #%d (an existing object) from value %r to %r - Python integers "
+               "are immutable, every later use of that object is affected" % (O.expr_str(prog["expr"], prog["kinds"]), list(vec), n, op, idx, v0, v1))
     ref = O.ref_steps(prog["expr"], prog["kinds"], vec, n)
     got = o.steps
     name = O.expr_str(prog["expr"], prog["kinds"])
